@@ -36,7 +36,9 @@ def _strategy(draw):
     ntypes = draw(st.integers(3, 6))
     types = TYPES[:ntypes]
     opls = draw(st.integers(0, 4)) == 0
-    btypes = {t: (draw(st.sampled_from(["BA", "BB", "BC"])) if opls else t) for t in types}
+    # with bond types (OPLS style) a bond-type name may coincide with the name of another atom type
+    bpool = ["BA", "BB", "BC"] + (types[:2] if opls and draw(st.booleans()) else [])
+    btypes = {t: (draw(st.sampled_from(bpool)) if opls else t) for t in types}
     comb = draw(st.sampled_from([1, 2, 3]))
     atomtypes = []
 
